@@ -494,6 +494,9 @@ def _check_http(ctx, repo):
         if isinstance(n, ast.Assign) and isinstance(n.value, ast.Subscript) and norm(n.value.value) == "self.headers" \
                 and isinstance(n.value.slice, ast.Constant) and isinstance(n.targets[0], ast.Name):
             read[n.value.slice.value] = n.targets[0].id
+        elif isinstance(n, ast.Assign) and isinstance(n.value, ast.Call) and norm(n.value.func) == "self.headers.get" and n.value.args and isinstance(n.value.args[0], ast.Constant) \
+                and isinstance(n.targets[0], ast.Name):
+            read[n.value.args[0].value] = n.targets[0].id    # headers.get(name, default): same lookup (email.message.Message)
     rk = set(read)
     ctx.check(rk <= set(written), "R-WIRE.http", "header keys read are written", rcv, rcv.node,
               f"do_POST reads header(s) {sorted(rk - set(written))} that send_msg never sets")
